@@ -42,8 +42,9 @@ def sweep(binary, fen, pre, fields=6):
             rej[json.dumps(x)] = x
         else:
             acc.append([s, x])
+    # an engine that accepts thousands of strings is wrong already; the event carries the count and a sample
     return {"ev": "pm", "fen": ["startpos"] if fen == "startpos" else list(fen), "pre": list(pre), "n": len(UNIVERSE),
-            "acc": acc, "rej": list(rej.values())}
+            "acc_total": len(acc), "acc": acc[:400], "rej": list(rej.values())}
 
 
 def fen_sweep(binary, strings):
